@@ -204,7 +204,7 @@ def verdict(rep, S, name, node, body, side=0):
     if lits is not None and side and all(not pol for _, pol in lits) and all(is_randomiser_nonzero(a) for a, _ in lits):
         rep.ok("complete", name, sample="verify(honest %s) == TRUE up to the side condition %s" % (name, explain(S, node)[:200]))
         return
-    rep.fail("complete", name, "an honestly built %s is not accepted identically: residual condition %s" % (name, explain(S, node)[:700]), site=body.loc())
+    rep.fail("complete", name, "an honestly built %s is not accepted identically: residual condition %s" % (name, explain(S, node)[:int(__import__("os").environ.get("ZKV_MSGLEN", "700"))]), site=body.loc())
 
 
 def is_randomiser_nonzero(a):
